@@ -512,7 +512,7 @@ def part_report(ctx, labelled, results):
     """observe_at: the two SUMMARY sections of the report are, character for character, the string model applied to the
     values the run holds (also for the partial report main() prints after an exception), and HipRaResult's parse of the
     report is the model parser's."""
-    terms, meta, budget = [], [], ctx.n(80, 100000)
+    terms, meta, budget = [], [], ctx.n(80, 1500)
     for (label, text), r in zip(labelled, results):
         if r.get('read_error') or (len(meta) >= 3 * budget and not r['calc_error']):
             continue
@@ -529,7 +529,7 @@ def part_report(ctx, labelled, results):
         sec_in, sec_out = hiprun.sections(r['report'])
         S = lambda x: '(' + qconv.coq_bytes(x) + ')%string'
         lit = lambda lines: S(''.join(x + '\n' for x in lines))
-        terms.append(f'String.eqb (section_text (result_rows {flags}) hip_out_names {outs}) {lit(sec_out)}')
+        terms.append(f'String.eqb (section_text (result_rows {flags}) hip_out_names {outs}) {lit(sec_out)} && forallb fval_sig_ok {outs}')
         meta.append(('report:text:results', label, text))
         terms.append(f'String.eqb (section_text (input_rows {flags}) hip_in_names {ins}) {lit(sec_in)}')
         meta.append(('report:text:inputs', label, text))
